@@ -57,6 +57,26 @@ export function* generate({ tier, seed }) {
     const atoms = [...new Set(props.flatMap((p) => p.ops.filter((o) => o.startsWith('atom:'))))].slice(0, 3).join(',');
     yield emit(props, out.decls, rng.pick(['before', 'before', 'after']), `tree|${ops}|${atoms}`);
   }
+  yield* shadowModules(rng, tier);
+}
+
+function* shadowModules(rng, tier) {
+  const n = tier === 'quick' ? 400 : 6000;
+  for (let i = 0; i < n; i++) {
+    const a = atomNode(rng.pick(ATOMS)), b = atomNode(rng.pick(ATOMS));
+    if (JSON.stringify(a.ctors) === JSON.stringify(b.ctors)) continue;
+    const scope = rng.pick(['fnDecl', 'arrow', 'fnExpr']); // bare blocks: SWC's resolver gives block-scoped types the enclosing context (trusted base), not generated
+    const kind = rng.pick(['alias', 'alias', 'interfaceIndex']);
+    const declOuter = kind === 'alias' ? `type Id = ${a.src};` : `interface Box { v: ${a.src} }`;
+    const declInner = kind === 'alias' ? `type Id = ${b.src};` : `interface Box { v: ${b.src} }`;
+    const ref = kind === 'alias' ? 'Id' : 'Box["v"]';
+    const outerComp = `export const CO = defineComponent((props: { po: ${ref}; other?: string }) => () => null);`;
+    const innerBody = `${declInner}\n  return defineComponent((props: { pi: ${ref}; other?: number }) => () => null);`;
+    const inner = scope === 'fnDecl' ? `function mk() {\n  ${innerBody}\n}\nexport const CI = mk();` : scope === 'arrow' ? `const mk = () => {\n  ${innerBody}\n};\nexport const CI = mk();` : `const mk = function () {\n  ${innerBody}\n};\nexport const CI = mk();`;
+    const outerFirst = rng.bool();
+    const src = `import { defineComponent } from "vue";\n${declOuter}\n${outerFirst ? outerComp + '\n' + inner : inner + '\n' + outerComp}\nexport const INHO = [${a.inhabitants.map((x) => x.js).join(', ')}];\nexport const INHI = [${b.inhabitants.map((x) => x.js).join(', ')}];\n`;
+    yield { gid: `C17-shadow-${i}`, src, syntax: 'tsx', spec: { shadow: { po: { ctors: a.ctors, src: a.src }, pi: { ctors: b.ctors, src: b.src } } }, feature: `shadow|${kind}|${scope}|${outerFirst ? 'outerFirst' : 'innerFirst'}|${a.src}|${b.src}`, variants: [{ vid: 'v0', options: { resolveType: true } }] };
+  }
 }
 
 const ENV = { globals: {}, modules: {} };
@@ -82,6 +102,26 @@ export async function check(group, records) {
       return [violated({ ...base, oracle: 'module loads', sig: `C17/load-error/${error.name}/${String(error.message).replace(/\W+/g, '_').slice(0, 30)}`, detail: error })];
     }
     const calls = rt.log.filter((e) => e.k === 'defineComponent');
+    if (group.spec.shadow) {
+      if (calls.length !== 2) return [inconclusive({ ...base, reason: `expected 2 defineComponent calls, saw ${calls.length}` })];
+      const outs = [];
+      for (const [key, inh] of [['po', ns.INHO], ['pi', ns.INHI]]) {
+        const call = calls.find((c) => c.extraOptions && c.extraOptions.props && key in c.extraOptions.props);
+        const sp = group.spec.shadow[key];
+        if (!call) { outs.push(violated({ ...base, oracle: 'prop present', sig: 'C17/prop-missing', detail: { key } })); continue; }
+        const opt = call.extraOptions.props[key];
+        const got = ctorNames(opt.type);
+        const expAny = sp.ctors.includes('ANY');
+        const rejected = (expAny ? [...inh, ...PROBES] : inh).find((val) => !validatePropAccepts(val, opt));
+        const norm = (l) => [...new Set(l.map(String))].sort().join(',');
+        const nullAlone = sp.ctors.length === 1 && sp.ctors[0] === null && norm(got) === 'ANY';
+        const bigintLit = sp.src === '10n';
+        if (rejected !== undefined && !bigintLit) outs.push(violated({ ...base, feature: `${group.feature}|${key}`, oracle: 'scoped alias resolves to its own declaration', sig: `C17/scoped-alias/inhabitant-rejected/${key === 'po' ? 'outer' : 'inner'}`, detail: { key, declared: sp.src, emitted: got } }));
+        else if (!expAny && !nullAlone && !bigintLit && norm(got) !== norm(sp.ctors)) outs.push(violated({ ...base, feature: `${group.feature}|${key}`, oracle: 'scoped alias resolves to its own declaration', sig: `C17/scoped-alias/ctor-set/${key === 'po' ? 'outer' : 'inner'}`, detail: { key, declared: sp.src, emitted: got, expected: sp.ctors } }));
+        else outs.push(held({ ...base, feature: `${group.feature}|${key}`, events: { props_checked: 1, inhabitants_validated: inh.length } }));
+      }
+      return outs;
+    }
     if (calls.length !== 1) return [inconclusive({ ...base, reason: `expected 1 defineComponent call, saw ${calls.length}` })];
     const props = (calls[0].extraOptions || {}).props;
     if (!props) return [violated({ ...base, oracle: 'props option received', sig: 'C17/props-option-missing', detail: short(calls[0].extraOptions) })];
